@@ -140,3 +140,14 @@ func vH_FP_scan(data []byte) {
 		}
 	}
 }
+
+// ---- C04 tier 2: the exact floating-point path ------------------------------
+func vH_FP_exact(exp10 int, neg bool) {
+	man := vNondetUint64("man")
+	f, ok := atof64exact(man, exp10, neg)
+	vReach("C04.exact-returned")
+	if ok {
+		vReach("C04.exact-ok")
+		vAssertRounded(man, exp10, neg, math.Float64bits(f), "C04.exact-rounded")
+	}
+}
